@@ -60,8 +60,9 @@ def run_check(prop: str, tier: str, root: str, out=sys.stdout) -> int:
                                         f'(found {counts.get(rule, 0)}): the rule would pass vacuously',
                                         root))
         extra_cov = {}
-        if tier == 'thorough' and spec.get('thorough'):
-            extra_cov = spec['thorough'](ctx, prop, seed)
+        if tier == 'thorough':
+            from .selftest import run_corpus
+            extra_cov = run_corpus(ctx, prop, seed)
     except FrontEndError as e:
         print(f"ANALYSIS-ERROR property={prop} {e}", file=out)
         _fallback_evidence(prop, tier, spec, time.time() - t0, str(e), seed)
@@ -91,7 +92,17 @@ def run_check(prop: str, tier: str, root: str, out=sys.stdout) -> int:
         print(f"ANALYSIS-ERROR property={prop} {o.rule}: {o.title} at {o.where}: {o.detail}", file=out)
     wall = time.time() - t0
     decided = [o for o in obs if o.status in ('ok', 'violation')]
-    corpus_anomaly = bool(extra_cov.get('corpus_anomalies'))
+    corpus_anomaly = False
+    for vid in extra_cov.get('selftest_missed', []):
+        print(f"SELFTEST-MISS property={prop} curated violating variant `{vid}` was not reported (checker gap, not a finding on /repo)", file=out)
+    for vid in extra_cov.get('selftest_false_alarms', []):
+        print(f"SELFTEST-FALSE-ALARM property={prop} neutral refactoring `{vid}` was flagged (checker defect, not a finding on /repo)", file=out)
+    if extra_cov.get('selftest'):
+        st = extra_cov['selftest']
+        print(f"{prop}: self-validation corpus: curated {st['curated_reported']}/{st['curated_violating']} reported"
+              f"{' (stale: ' + ','.join(st['curated_stale']) + ')' if st['curated_stale'] else ''}, neutral "
+              f"{st['neutral_silent']}/{st['neutral_refactorings']} silent, sweep {st['sweep_reported_violation']} flagged + "
+              f"{st['sweep_inconclusive']} inconclusive of {st['sweep_variants']}", file=out)
     write_evidence(prop, tier, spec['level'], obs, wall, spec['explanation'], spec['assumptions'], len(new_viol),
                    extra_cov=dict(extra_cov, **_level_cov(spec, obs)), seed=seed)
     n_ok = sum(1 for o in decided if o.status == 'ok')
